@@ -1,5 +1,7 @@
 class Writer:
   def __str__(self):
+    if self.vlevel >= 2:
+      return "#" + self.field_to_s("spacer") + self.field_to_s("content")
     return "#" + str(self.spacer) + str(self.content)
 
   def to_list(self, add_virtual_commentary=True):
